@@ -37,21 +37,27 @@ EStep(st, e, t) ==
               ELSE IF e.tx # <<[id |-> 128 + t.nid, d |-> fr]>> THEN Bad(st, "producer frame is not <<code lo, code hi, register, data zero-padded to 5>> on 0x80 + node id")
               ELSE Finish(st, e, new)
       [] e.e = "wait" ->
-           \* fed: frames delivered (with timestamps) while the caller was waiting
+           \* fed: frames delivered (with timestamps) while the caller(s) were waiting; filter2 / result2:
+           \* a second caller waiting at the same time (-2: none)
            LET ents == [i \in 1..Len(e.fed) |-> Entry(e.fed[i][1], e.fed[i][2])]
                \* a frame that arrives after the time-out has expired is logged but never handed over
                ontime(i) == \A m \in 1..i : e.fed[m][3] = 0
-               match(i) == ontime(i) /\ (e.filter < 0 \/ ents[i].code = e.filter)
+               match(f, i) == ontime(i) /\ (f < 0 \/ ents[i].code = f)
                new == [log |-> st.log \o ents,
                        active |-> SinceReset(st.active \o ents)]
                \* (st.active never contains a reset entry, so SinceReset over the concatenation is exact)
-           IN IF \E i \in 1..Len(ents) : match(i)
-                THEN LET j == CHOOSE j \in 1..Len(ents) : match(j) /\ \A m \in 1..(j - 1) : ~match(m) IN
-                     IF e.result # <<ents[j].code, ents[j].reg, ents[j].data, ents[j].ts>>
-                       THEN Bad(st, "wait did not hand over the next matching entry")
-                       ELSE Finish(st, e, new)
-                ELSE IF e.result # <<>> THEN Bad(st, "wait returned something although no matching entry arrived before the time-out")
-                     ELSE Finish(st, e, new)
+               Judge(f, result) ==
+                   IF \E i \in 1..Len(ents) : match(f, i)
+                     THEN LET j == CHOOSE j \in 1..Len(ents) : match(f, j) /\ \A m \in 1..(j - 1) : ~match(f, m) IN
+                          IF result # <<ents[j].code, ents[j].reg, ents[j].data, ents[j].ts>>
+                            THEN "wait did not hand over the next matching entry" ELSE ""
+                     ELSE IF result # <<>> THEN "wait returned something although no matching entry arrived before the time-out"
+                          ELSE ""
+               w1 == Judge(e.filter, e.result)
+               w2 == IF e.filter2 = -2 THEN "" ELSE Judge(e.filter2, e.result2)
+           IN IF w1 # "" THEN Bad(st, w1)
+              ELSE IF w2 # "" THEN Bad(st, w2 \o " (second caller waiting at the same time)")
+              ELSE Finish(st, e, new)
       [] OTHER -> Bad(st, "unknown event")
 TraceFile == JsonDeserialize(IOEnv.TRACE_FILE)
 VARIABLES tid, l, st
